@@ -557,3 +557,29 @@ def defer_cond():
 
 
 ALL["defer_cond"] = defer_cond
+
+
+def nest3_deep():
+    """root > Mid > Leaf where some events occur in the innermost machine only (its table, a state-local table, its own
+    internal table), one of them competing with a root row on the Mid state; flags carried by the deepest states only"""
+    return {
+        "name": "nest3_deep",
+        "events": ["E0", "E1", "E2", "E3", "E4", "E5", "E6"],
+        "machines": [
+            {"name": "Top", "regions": [["A", "M"], ["C", "D"]], "kinds": {"M": "sub:Mid"},
+             "rows": ["A + E0 / a0 -> M", "M + E0 [g0] / a1 -> A", "M + E4 [g1] / a2 -> A", "C + E1 / a3 -> D", "D + E1 / a4 -> C",
+                      "M + E5 [g12] / a17 -> A"],
+             "state": {"C": {"flags": ["F2"]}}},
+            {"name": "Mid", "regions": [["P", "L"], ["U", "V"]], "kinds": {"L": "sub:Leaf"},
+             "rows": ["P + E1 [g2] / a5 -> L", "L + E1 [g3] / a6 -> P", "U + E2 [g4] / a7 -> V", "V + E2 / a8 -> U", "P + E0 [g5] -> L"],
+             "state": {"U": {"flags": ["F1"]}, "L": {"flags": ["F1"]}}},
+            {"name": "Leaf", "regions": [["X", "Y"], ["Z", "W"]],
+             "rows": ["X + E3 [g6] / a9 -> Y", "Y + E3 / a10 -> X", "X + E4 [g7] / a11 -> Y", "Y + E4 [g8] / a12", "Z + E3 [g9] / a13 -> W",
+                      "W + E2 [g10] / a14 -> Z"],
+             "internal": ["E6 [g11] / a15"],
+             "state": {"Y": {"flags": ["F0"], "internal": ["E5 [g13] / a16"]}, "W": {"flags": ["F0", "F3"]}, "X": {"flags": ["F3"]}}},
+        ],
+    }
+
+
+ALL["nest3_deep"] = nest3_deep
